@@ -620,6 +620,48 @@ def assorter_mean_post(S, I, variant):
         S.holds("mean of an empty population is NaN", xr(m).nan)
 
 
+@script(["C02", "C03"], "Assorter.mean+sum/post (unbounded number of cards)", variants=(("style",), ("nostyle",)), optional=True)
+def assorter_mean_unbounded(S, I, variant):
+    use_style = variant[0] == "style"
+    c = ctx()
+    N = S.integer("n_cards", lo=0)
+    u_a = S.real("u_a", lo=Fraction(1, 2))
+    con = mk_contest(I, id="con", cards=10, candidates=["A", "B"], winner=["A"])
+    cards = SymObjList(iterm(N), lambda i: sym_cvr(I, f"card@{z3.simplify(zi(i))}", {"con": ["A", "B"]}))
+    assorter, value_of = lazy_assorter(S, I, con, u_a, None)
+    # specification: sum / count over the cards of the population (those listing the contest when style information is used)
+    inpop = lambda i: True if not use_style else has_contest(cards.at(i), "con")
+    spec_sum = SymArr(iterm(N), lambda i: xite(inpop(i), value_of(cards.at(i)), XR.const(0, npk=True)), "xr").fold("+")
+    spec_cnt = SymArr(iterm(N), lambda i: mkint(iite(inpop(i), 1, 0)), "int").fold("+")
+    for meth in ("sum", "mean"):
+        I.trace.pop("filtered_sum", None)
+        I.trace.pop("filtered_mean", None)
+        r, exc = guard(S, I, lambda: I.call(I.getattr(assorter, meth), [cards], {"use_style": use_style}))
+        if exc:
+            return
+        tr = I.trace.get("filtered_sum" if meth == "sum" else "filtered_mean", [])
+        if len(tr) != 1:
+            raise NotApplicable(f"Assorter.{meth} is not one aggregate over a filtered comprehension of the card list")
+        fa = tr[0][1] if meth == "sum" else tr[0][0]
+        i = z3.Int(c.fresh("card"))
+        with c.scope():
+            c.assume(z3.And(i >= 0, i < zi(iterm(N))))
+            value_of(cards.at(i))
+            S.holds(f"[{meth}] card i is counted exactly when it is in the population; its term is assort(card i)",
+                    band(icmp("==", fa.length, N), biff(fa.cond(i), inpop(i)),
+                         bimp(inpop(i), xsame(xr(fa.elem(i)), value_of(cards.at(i))))))
+        # extensionality of sums: same length, same summands => same sum (and same count)
+        if meth == "sum":
+            c.assume(xsame(xr(I.norm_scalar(r)), spec_sum.at(iterm(N))))
+            S.eq("sum = sum of assort over the population", xr(I.norm_scalar(r)), spec_sum.at(iterm(N)))
+        else:
+            ind, cntarr = tr[0][1], tr[0][2]
+            c.assume(xsame(xr(I.norm_scalar(ind.fold("+").at(iterm(N)))), spec_sum.at(iterm(N))))
+            c.assume(icmp("==", cntarr.fold("+").at(iterm(N)), spec_cnt.at(iterm(N))))
+            S.eq("mean = sum of assort over the population / size of the population (NaN if it is empty)",
+                 xr(r), xdiv_np(spec_sum.at(iterm(N)).asnp(), XR.const(spec_cnt.at(iterm(N)), npk=True)))
+
+
 @script(["C03"], "Assorter.set_tally_pool_means/post (bounded: n cards, 2 pools)", variants=tuple((n[0], s) for n in LISTN for s in ("style", "nostyle")))
 def set_tally_pool_means_post(S, I, variant):
     n = int(variant[0][1:])
